@@ -13,10 +13,11 @@ MANIFEST = {
             "threaded runs with seeded perturbation: every supernode read in panel_bmod happens after the release of all "
             "its columns, each (panel, source supernode) update at most once, only smaller columns are read; plus "
             "comparison of the parallel factors with a 1-thread elimination using the same row order.",
-    "note": "PARTIAL: the column-level worker protocol (mark_busy_descends, panel_dfs skipping, pruning races, no-write-"
-            "while-read on subscript lists) is monitored on traces, not proved; the proof covers the panel-level protocol. "
-            "Trusted: Coq kernel, extraction, lock-step harness, event hooks (SLU_MT_VERIF) and the python trace monitor; "
-            "sequentially consistent memory assumed.",
+    "note": "PARTIAL: of the column-level worker protocol, pxgstrf_mark_busy_descends is modelled and proved (c03_busy_columns_marked: "
+            "the busy snapshot covers every column of every unfinished descendant panel; tied by comparing every snapshot of every "
+            "worker of real runs with the extracted model); panel_dfs skipping, pruning races and no-write-while-read on subscript "
+            "lists are monitored on traces, not proved. Trusted: Coq kernel, extraction, lock-step harness, event hooks "
+            "(SLU_MT_VERIF) and the python trace monitor; sequentially consistent memory assumed.",
     "technique": "Coq invariant proof (panel-level pipeline protocol) + lock-step model-vs-C walk + trace monitor on threaded runs",
 }
 
